@@ -307,6 +307,9 @@ def gene_info_state(g):
             tuple(sorted(g.isoform_strands.items())), tuple(sorted(g.gene_id_map.items())))
 
 
+CHR_RECORD = "CG" * 20000         # stands for the chromosome record: the loaders slice the reference sequence of every gene info from it
+
+
 def stream_search(scratch, depth):
     """BFS over record streams: state = stream prefix (history); transition = append one record.
        Every state is written by the real printer and read back by both real loaders."""
@@ -368,13 +371,16 @@ def stream_search(scratch, depth):
                     o = alphabet[sym]
                     exp.append(("gene", gene_info_state(o)) if sym.startswith("g") else ("ra", ra_state(o)))
                 try:
-                    ld = NormalTmpFileAssignmentLoader(path, db, None)
+                    ld = NormalTmpFileAssignmentLoader(path, db, CHR_RECORD)
                     got = []
                     while ld.has_next():
                         o = ld.get_object()
                         if o is None:
                             got.append(("bad-id", ld.current_id))
                             break
+                        if isinstance(o, GeneInfo) and len(o.reference_region or "") != o.all_read_region_end - o.all_read_region_start + 1:
+                            bad.append((hist, "gene info reloaded with read region %d-%d but %d bases of reference sequence" %
+                                        (o.all_read_region_start, o.all_read_region_end, len(o.reference_region or ""))))
                         got.append(("gene", gene_info_state(o)) if isinstance(o, GeneInfo) else ("ra", ra_state(o)))
                     if got != exp:
                         bad.append((hist, "normal loader returned %d records, expected %d, first difference at %s" %
@@ -396,7 +402,7 @@ def stream_search(scratch, depth):
                             blocks.append((gene_info_state(alphabet[sym]), []))
                         else:
                             blocks[-1][1].append(ra_state(alphabet[sym]))
-                    bl = ReadAssignmentLoader(path, db, None, None)
+                    bl = ReadAssignmentLoader(path, db, CHR_RECORD, None)
                     gotb = []
                     while bl.has_next():
                         gi, storage = bl.get_next()
